@@ -226,4 +226,57 @@ def RetortRecipe.full {P : Type} (r : RetortRecipe P) : List P :=
 def RetortRecipe.extend {P : Type} (r : RetortRecipe P) (new : List P) : RetortRecipe P :=
   { r with inst := new ++ r.inst }
 
+/-! ### Retorts as recipe trees (a retort placed in the recipe of another retort, `extend`, `replace`) -/
+
+/-- One entry of a full recipe.
+    * `plain`   : a provider with its checker and handler;
+    * `builtin` : a provider of the class recipe whose answer depends on the scalar option of the retort that OWNS the
+                  recipe (the `int` loader reads `strict_coercion` through the mediator of that retort): it responds
+                  with the word `[optWord opt]`;
+    * `nested`  : a retort placed in the recipe (`SearchingRetort.get_request_handlers`; `c` is the always-true checker,
+                  or the predicate of `bound(pred, retort)`), carrying its OWN option and its OWN full recipe. -/
+inductive Prov where
+  | plain (c : Checker) (h : Handler)
+  | builtin (c : Checker)
+  | nested (c : Checker) (opt : Nat) (recipe : List Prov)
+
+def optWord (opt : Nat) : Nat := 1000 + opt
+
+/-- one request through the whole bus of a retort whose full recipe is `cs` -/
+def sendAll (r : Req) (cs : List (Checker × Handler)) : Result :=
+  send (combine cs) r ((combine cs).length + 1) 0
+
+/-- The (checker, handler) list the router of a retort with option `opt` is built from, for the request at hand.
+    The handler of a nested retort is `retort_request_handler = self._provide_from_recipe(request)`: the outcome of the
+    nested retort's own bus over its own recipe with its own option (`nestedHandler`).  Fuel = nesting depth. -/
+def flat (r : Req) : Nat → Nat → List Prov → List (Checker × Handler)
+  | 0, _, _ => []
+  | d + 1, opt, ps => ps.map fun p =>
+    match p with
+    | .plain c h => (c, h)
+    | .builtin c => (c, .respond [optWord opt])
+    | .nested c o inner => (c, nestedHandler (sendAll r (flat r d o inner)))
+
+/-- a request served by a retort with option `opt` and full recipe `ps` -/
+def serveTree (r : Req) (d opt : Nat) (ps : List Prov) : Result := sendAll r (flat r d opt ps)
+
+/-- A retort as a value: scalar option, instance recipe, class recipe (`_full_recipe = inst ++ cls`). -/
+structure RetortV where
+  opt : Nat
+  inst : List Prov
+  cls : List Prov
+
+def RetortV.full (v : RetortV) : List Prov := v.inst ++ v.cls
+
+/-- `AdornedRetort.extend(recipe=new)`: `_instance_recipe = (*new, *old)`, everything else kept -/
+def RetortV.extend (v : RetortV) (new : List Prov) : RetortV := { v with inst := new ++ v.inst }
+
+/-- `AdornedRetort.replace(strict_coercion=o)`: only the scalar option changes -/
+def RetortV.replace (v : RetortV) (o : Nat) : RetortV := { v with opt := o }
+
+/-- the retort placed in a recipe under checker `c` (`retort` itself: always-true; `bound(pred, retort)`: `pred`):
+    a function of the retort's value only - nothing of what the retort (or the retort it was derived from) served
+    before takes part -/
+def RetortV.asProvider (v : RetortV) (c : Checker) : Prov := .nested c v.opt v.full
+
 end Adaptix.Router
